@@ -156,7 +156,8 @@ func trackToken(a *memArena, tok tokens.Token, n int) {
 }
 
 // memRun executes one history on one object kind with one spare-capacity fill.
-func memRun(seed int64, kind string, calls []string, fill byte) []memStep {
+func memRun(seed int64, kind string, calls []string, fill byte) ([]memStep, []string) {
+	var created []string // argument regions found changed when creation (and its refused attempts) returned
 	a := &memArena{fill: fill}
 	r := newRand(seed, "memory-"+kind+strings.Join(calls, ",")) // same randomness for both fills
 	steps := []memStep{}
@@ -173,6 +174,14 @@ func memRun(seed int64, kind string, calls []string, fill byte) []memStep {
 		challenge := a.arg("arg.challenge", "challenge", randBytes(r, 20), spare)
 		nonce := a.arg("arg.nonce", "nonce", randNonce(r), spare)
 		nonce2 := a.arg("arg.nonce", "nonce2", randNonce(r), spare)
+		// creation is also ATTEMPTED with arguments of other lengths lying in roomy buffers (a nonce of 16 bytes, an empty
+		// one, a key id of 31 bytes): refused or not, the buffers are the caller's
+		shortNonce := a.arg("arg.nonce", "nonce-short", randBytes(r, 16), spare+40) // (room for a whole nonce behind it)
+		emptyNonce := a.arg("arg.nonce", "nonce-empty", []byte{}, spare+40)
+		tryOdd := func(f func(nonce []byte)) {
+			guard(func() { f(shortNonce) })
+			guard(func() { f(emptyNonce) })
+		}
 		var reqFields func()
 		var marshal func() []byte
 		var finalize func([]byte) ([]tokens.Token, error)
@@ -182,6 +191,7 @@ func memRun(seed int64, kind string, calls []string, fill byte) []memStep {
 			k := p384Key(seed, "k1")
 			iss := type1.NewBasicPrivateIssuer(k)
 			keyID := a.arg("arg.keyid", "keyid", iss.TokenKeyID(), spare)
+			tryOdd(func(n []byte) { type1.NewBasicPrivateClient().CreateTokenRequest(challenge, n, keyID, iss.TokenKey()) })
 			st, err := type1.NewBasicPrivateClient().CreateTokenRequest(challenge, nonce, keyID, iss.TokenKey())
 			if err != nil {
 				panic(err)
@@ -196,6 +206,7 @@ func memRun(seed int64, kind string, calls []string, fill byte) []memStep {
 		case "t2state":
 			iss := type2.NewBasicPublicIssuer(rsaKey(0))
 			keyID := a.arg("arg.keyid", "keyid", iss.TokenKeyID(), spare)
+			tryOdd(func(n []byte) { type2.NewBasicPublicClient().CreateTokenRequest(challenge, n, keyID, iss.TokenKey()) })
 			st, err := type2.NewBasicPublicClient().CreateTokenRequest(challenge, nonce, keyID, iss.TokenKey())
 			if err != nil {
 				panic(err)
@@ -211,6 +222,9 @@ func memRun(seed int64, kind string, calls []string, fill byte) []memStep {
 			k := ristrettoKey(seed, "k1")
 			iss := type5.NewBatchedPrivateIssuer(k)
 			keyID := a.arg("arg.keyid", "keyid", iss.TokenKeyID(), spare)
+			tryOdd(func(n []byte) {
+				type5.NewBatchedPrivateClient().CreateTokenRequest(challenge, [][]byte{nonce2, n}, keyID, iss.TokenKey())
+			})
 			st, err := type5.NewBatchedPrivateClient().CreateTokenRequest(challenge, [][]byte{nonce, nonce2}, keyID, iss.TokenKey())
 			if err != nil {
 				panic(err)
@@ -227,6 +241,10 @@ func memRun(seed int64, kind string, calls []string, fill byte) []memStep {
 			w := newT3World(rsaKey(1), seed, map[string]string{"origin.example": "a"})
 			keyID := a.arg("arg.keyid", "keyid", w.issuer.TokenKeyID(), spare)
 			blind := a.arg("arg.blind", "blind", p384Scalar(seed, "mem-blind"), spare)
+			tryOdd(func(n []byte) {
+				type3.NewRateLimitedClientFromSecret(p384Scalar(seed, "mem-client")).CreateTokenRequest(challenge, n, blind, keyID,
+					w.issuer.TokenKey(), "origin.example", w.issuer.NameKey())
+			})
 			st, err := type3.NewRateLimitedClientFromSecret(p384Scalar(seed, "mem-client")).CreateTokenRequest(challenge, nonce, blind, keyID,
 				w.issuer.TokenKey(), "origin.example", w.issuer.NameKey())
 			if err != nil {
@@ -249,6 +267,8 @@ func memRun(seed int64, kind string, calls []string, fill byte) []memStep {
 				return []tokens.Token{t}, err
 			}
 		}
+		// creation and its attempts have returned: their arguments are still the caller's
+		created = a.diff()
 		// the request object is reachable from the state handed out by creation
 		reqFields()
 		a.diff()
@@ -648,6 +668,16 @@ func memRun(seed int64, kind string, calls []string, fill byte) []memStep {
 			pickB[h.m] = h.b
 		}
 		msgs := []string{"t1req", "t2req", "t3req", "t5req", "inner", "batchreq"}
+		for _, m := range msgs {
+			// kinds with a single honest message get a second one that differs in its last byte (decoders do not judge contents)
+			if bytes.Equal(pickA[m], pickB[m]) && len(pickA[m]) > 0 {
+				b := append([]byte{}, pickA[m]...)
+				b[len(b)-1] ^= 0x01
+				if newObj(m).Unmarshal(append([]byte{}, b...)) {
+					pickB[m] = b
+				}
+			}
+		}
 		objs := map[string]codecObj{}
 		for _, m := range msgs {
 			objs[m] = newObj(m)
@@ -714,7 +744,7 @@ func memRun(seed int64, kind string, calls []string, fill byte) []memStep {
 			}
 		}
 	}
-	return steps
+	return steps, created
 }
 
 var honestCache = struct {
@@ -759,11 +789,14 @@ func execMemory(c *ctx, in ev) []ev {
 	for _, x := range gL(in, "calls") {
 		calls = append(calls, x.(string))
 	}
-	out := []ev{{"op": "MNew", "kind": kind}}
+	mnew := ev{"op": "MNew", "kind": kind, "changed": []string{}}
+	out := []ev{mnew}
 	var runs [2][]memStep
 	p := guard(func() {
-		runs[0] = memRun(c.seed, kind, calls, 0x00)
-		runs[1] = memRun(c.seed, kind, calls, 0xd7)
+		var c0, c1 []string
+		runs[0], c0 = memRun(c.seed, kind, calls, 0x00)
+		runs[1], c1 = memRun(c.seed, kind, calls, 0xd7)
+		mnew["changed"] = append(append([]string{}, c0...), c1...)
 	})
 	if p != "" {
 		return append(out, ev{"op": "MCall", "kind": kind, "call": "setup", "step": 0, "changed": []string{}, "classes": []string{}, "res": "", "det_same": true,
